@@ -10,7 +10,7 @@ func init() {
 		Rule:  "C20Cong: ecosystem x range template x two version templates (assume Compare==0); C20Convex: ecosystem x conjunctive range template x three version templates",
 		Gen: func(tier string) []*Config {
 			var out []*Config
-			nr, nv, nt := 14, 6, 4
+			nr, nv, nt := 12, 5, 3
 			if tier == "thorough" {
 				nr, nv, nt = 40, 12, 7
 			}
@@ -50,7 +50,7 @@ func init() {
 			return out
 		},
 		Bounds: func(tier string) string {
-			return "ranges: comparator forms per DESIGN B.1 plus shorthand constructs per B.4 (thinned to 14 quick / 40 thorough per ecosystem); versions: 6 (12) grammar templates for pairs, 4 (7) for triples; pypi '===' excluded; alpm pairs differing in pkgrel presence excluded"
+			return "ranges: comparator forms per DESIGN B.1 plus shorthand constructs per B.4 (thinned to 12 quick / 40 thorough per ecosystem); versions: 5 (12) grammar templates for pairs, 3 (7) for triples; pypi '===' excluded; alpm pairs differing in pkgrel presence excluded"
 		},
 	})
 }
